@@ -30,6 +30,8 @@ func rulesC03(w *World, r *Report) {
 	includeIf(w, r, "C11", "the decoder's tables start empty for every message", 3, func(o *Obligation) bool {
 		return strings.Contains(o.Key, "C11.R1") && strings.Contains(o.Key, "· Decoder.")
 	})
+	w.ruleLocalIndexInRange(r, "C03.R8 element accesses of local containers are in range", 3)
+	w.ruleCountGuardsTight(r, "C03.R7 count guards refuse only negative counts", 3)
 	w.ruleIndexGuardsTightPX(r, "C03.R7 index guards refuse only invalid indices")
 	w.ruleGetTagProtocol(r, "C03.R0 tag hand-on protocol")
 	w.ruleDispatchCoverage(r, "C03.R1 dispatch coverage")
